@@ -183,9 +183,11 @@ def serve (cfg : Cfg) (h : History) (p : Pos) : List Bytes :=
     | [] => [(fdeEvent cfg 4 (some 0)).1]
   fake :: head ++ rest.map (·.bytes)
 
-/-- the valid start positions: the head of the first file and the start of every unit -/
+/-- the valid start positions: the head of every file, the start of every unit, and the end of the log -/
 def boundaries (cfg : Cfg) (h : History) : List Pos :=
-  ⟨firstFile, 4⟩ :: (layout cfg h).filterMap fun e => if e.unitStart then some ⟨e.file, e.start⟩ else none
+  let l := layout cfg h
+  (l.filterMap fun e => if e.unitStart || e.tag == .fileHead then some ⟨e.file, e.start⟩ else none) ++
+    (match l.getLast? with | some e => [⟨e.file, e.next⟩] | none => [])
 
 /-- an expected transaction: labels, commit timestamp, the changes -/
 structure ETx where
